@@ -37,3 +37,20 @@ def blendAt (w : Nat → Rat) (val : Nat → Rat) (n : Nat) : Rat := ((List.rang
 def interiorWeight (a : Axis) (x k : Nat) : Rat := if x ∈ a.piece k then 1 else 0
 
 end Darsia.Patch
+
+namespace Darsia.Patch
+
+/-- `Patches.position(i, j)`: ("left" | "right" | "internal", "bottom" | "top" | "internal") -/
+inductive HPos | left | right | internal deriving DecidableEq, Repr
+inductive VPos | bottom | top | internal deriving DecidableEq, Repr
+
+/-- as coded: `i == 0` → left, `elif i == num_patches[0] - 1` → right, else internal; `j == 0` → bottom,
+`elif j == num_patches[1] - 1` → top, else internal (Python `n - 1` on ints: for `n = 0` it is `-1`, never equal to `i ≥ 0`) -/
+def position (n0 n1 i j : Nat) : HPos × VPos :=
+  (if i = 0 then .left else if 0 < n0 ∧ i = n0 - 1 then .right else .internal,
+   if j = 0 then .bottom else if 0 < n1 ∧ j = n1 - 1 then .top else .internal)
+
+/-- iteration order of the public tables (`patches[i][j]`, `rois[i][j]`, corner / centre arrays): `i` (rows) outer, `j` inner -/
+def patchOrder (n0 n1 : Nat) : List (Nat × Nat) := (List.range n0).flatMap fun i => (List.range n1).map fun j => (i, j)
+
+end Darsia.Patch
